@@ -39,6 +39,13 @@ MatchVal(obs, exp) ==
            [] exp.t = "bool" -> obs.b = exp.b
            [] OTHER -> TRUE
 
+\* the harness identifies a double with a rational only for denominators up to 10^6
+RECURSIVE HasBigDen(_)
+HasBigDen(x) == CASE x.t = "num" -> x.d > 1000000
+                  [] x.t = "arr" -> \E i \in 1..Len(x.v) : HasBigDen(x.v[i])
+                  [] x.t = "obj" -> \E i \in 1..Len(x.m) : HasBigDen(x.m[i][2])
+                  [] OTHER -> FALSE
+
 \* tainted evaluations (JEval!Taint): equal as multisets at the top level
 PermMatch(obs, exp) ==
     obs.t = "arr" /\ exp.t = "arr" /\ Len(obs.v) = Len(exp.v) /\
@@ -62,7 +69,7 @@ Verdict1(obs, R) ==
           ELSE IF "i" \in DOMAIN R /\ "i" \in DOMAIN obs /\ R.i # obs.i THEN "no" ELSE "ok")
     ELSE IF IsUndef(R.r) THEN (IF obs.o = "undef" THEN "ok" ELSE "no")
     ELSE IF obs.o # "val" THEN "no"
-    ELSE IF HasNumX(R.r) THEN "inc:number outside the model"
+    ELSE IF HasNumX(R.r) \/ HasBigDen(R.r) THEN "inc:number outside the model"
     ELSE IF MatchVal(obs.r, R.r) THEN "ok"
     ELSE IF R.st.perm THEN (IF PermMatch(obs.r, R.r) THEN "ok" ELSE "inc:member order")
     ELSE "no"
